@@ -365,7 +365,7 @@ def parser_pipeline(prop, tier, fam, whys, sweep=0, cfgname=None):
                 cc = json.loads(conc[b["line"] - 1])
             except Exception:
                 cc = None
-            violations.append({"props": [prop.rstrip("p")], "what": "%s (behaviour %s, call %d)" % (b["why"], b["id"], b["step"]),
+            violations.append({"props": [prop.rstrip("pt")], "what": "%s (behaviour %s, call %d)" % (b["why"], b["id"], b["step"]),
                                "replay": {"kind": "parser-trace", "id": b["id"], "pr": rec["pr"], "layer": rec["layer"],
                                           "failing_call": b["step"], "why": b["why"], "behaviour": rec, "concrete_tokens": cc,
                                           "reproduce": "pv " + " ".join(args) + " ; validate with spec/trace/ParserTrace.tla"}})
@@ -396,6 +396,15 @@ def check_parser_family(prop, tier):
     if conf["fam"] == "c11":
         sweep = 1 if thorough else 64
     r = parser_pipeline(prop, tier, conf["fam"], conf["whys"], sweep)
+    if conf["fam"] == "c11":
+        # time passes inside a parser history: tokens that expire / become valid between two parses
+        r2 = parser_pipeline(prop + "t", tier, "c11t", conf["whys"])
+        for k in ("states", "transitions", "nbeh", "n", "nparse", "other"):
+            r[k] += r2[k]
+        r["violations"] += r2["violations"]
+        r["bad"] += r2["bad"]
+        r["samples"] = r["samples"][:2] + r2["samples"][:1]
+        r["twall"] += r2["twall"]
     if conf["fam"] in ("c15", "c16"):
         # the same histories on PasetoParser (delegation to the generic parser, default validators present)
         r2 = parser_pipeline(prop + "p", tier, conf["fam"] + "p", conf["whys"])
